@@ -64,9 +64,10 @@ class C01(vlib.Driver):
                     if rng.random() < 0.5:   # parent and clone act on the same observation under the same seed
                         s = rng.randrange(1000)
                         ops.append(["act", p, s]); ops.append(["act", n - 1, s, p])
-                    if rng.random() < 0.6:   # parent and clone learn from the same batch under the same seed
-                        s = rng.randrange(1000)
-                        ops.append(["learn", p, s]); ops.append(["learn", n - 1, s, p]); has_learn = True
+                    if rng.random() < 0.6:   # parent and clone learn from the same batches under the same seeds (1..3 in a row)
+                        for _ in range(rng.choice([1, 2, 3])):
+                            s = rng.randrange(1000)
+                            ops.append(["learn", p, s]); ops.append(["learn", n - 1, s, p]); has_learn = True
                 elif r < 0.86:
                     ops.append(["mutate", rng.randrange(n), rng.choice(evo.MUT_KINDS), rng.randrange(1000)])
                 elif r < 0.93 and n >= 2:
@@ -83,6 +84,20 @@ class C01(vlib.Driver):
                 ops.append(["learn", i, rng.randrange(1000)])
             return ops
 
+        def custom_cases(pairs):
+            """agents built from plain torch networks wrapped by MakeEvolvable (actor_network=...): clone, mutate the clone's
+            architecture, then look back at the parent and clone the parent again (its init dict must be its own)"""
+            out = []
+            for algo, fam in pairs:
+                arch = "arch" if fam == "vector" else "param"    # (MakeEvolvable CNN channel mutations: see design.d/C01.md)
+                out.append({"algo": algo, "family": fam, "share": False, "netcfg": "custom", "seed": 11, "pop": 2,
+                            "ops": [["learn", 0, 1], ["clone", 0, None]] + [["mutate", 2, arch, 40 + i] for i in range(4)] +
+                                   [["clone", 0, 8], ["act", 0, 2], ["act", 3, 2, 0], ["learn", 0, 5], ["learn", 3, 5, 0],
+                                    ["mutate", 0, arch, 51], ["mutate", 0, arch, 52], ["clone", 2, 9], ["act", 2, 3], ["act", 4, 3, 2],
+                                    ["learn", 2, 6], ["learn", 4, 6, 2], ["mutate", 1, "act", 3], ["clone", 0, None],
+                                    ["learn", 0, 7], ["learn", 5, 7, 0], ["learn", 1, 8], ["learn", 3, 9]]})
+            return out
+
         def add(algo, family, share, netcfg, L, seed, nag=2, wrapper=False):
             ops = history(nag, L, rng)
             c = {"algo": algo, "family": family, "share": share, "netcfg": netcfg, "seed": seed, "pop": nag, "ops": ops}
@@ -94,9 +109,12 @@ class C01(vlib.Driver):
         for algo in algos:
             shares = [False, True] if algo in evo.SHARE_CAPABLE else [False]
             for share in shares:
-                cases.append({"algo": algo, "family": "vector", "share": share, "netcfg": "partial", "seed": 1, "pop": 2,
-                              "ops": [["learn", 0, 1], ["learn", 0, 2], ["score", 0, 3], ["clone", 0, None],
+                cases.append({"algo": algo, "family": "vector", "share": share, "netcfg": "partial", "seed": 1, "pop": 2, "tags": True,
+                              # an ODD number of learn steps before the first clone, then parent and clone learn from
+                              # policy_freq + 1 = 3 consecutive identical batches (delayed-update counters must be copied)
+                              "ops": [["learn", 0, 1], ["learn", 0, 2], ["learn", 0, 9], ["score", 0, 3], ["clone", 0, None],
                                       ["act", 0, 5], ["act", 2, 5, 0], ["learn", 0, 3], ["learn", 2, 3, 0],
+                                      ["learn", 0, 4], ["learn", 2, 4, 0], ["learn", 0, 6], ["learn", 2, 6, 0],
                                       ["mutate", 1, "arch", 5], ["clone", 1, 9], ["learn", 1, 8], ["learn", 3, 8, 1],
                                       ["mutate", 2, "param", 6], ["score", 0, 3], ["score", 1, 9], ["score", 2, 4],
                                       ["score", 3, 1], ["select", [1], True], ["learn", 0, 1], ["learn", 1, 2],
@@ -113,6 +131,7 @@ class C01(vlib.Driver):
                 add(algo, "vector", True, "partial", 6, rng.randrange(100))
             for algo in ("DQN", "DDPG"):       # AgentWrapper.clone (RSNorm supports the off-policy single-agent algorithms)
                 add(algo, "vector", False, "partial", 6, rng.randrange(100), wrapper=True)
+            cases += custom_cases([("DQN", "vector"), ("DQN", "image")])
             # custom encoder (EvolvableResNet): architecture mutations of the encoder, then clones of the mutants
             cases.append({"algo": "DQN", "family": "image", "share": False, "netcfg": "resnet", "seed": 5, "pop": 2,
                           "ops": [["learn", 0, 1]] + [["mutate", 0, "arch", 100 + i] for i in range(6)] +
@@ -120,6 +139,7 @@ class C01(vlib.Driver):
                                  [["mutate", 2, "arch", 120 + i] for i in range(4)] +
                                  [["clone", 2, 9], ["mutate", 1, "act", 2], ["learn", 1, 3], ["learn", 3, 4], ["learn", 0, 6]]})
         else:
+            cases += custom_cases([(a, f) for a, fs in evo.CUSTOM_ALGOS.items() for f in fs])
             for algo in evo.RESNET_ALGOS:
                 for share in ([False, True] if algo in evo.SHARE_CAPABLE else [False]):
                     cases.append({"algo": algo, "family": "image", "share": share, "netcfg": "resnet", "seed": 7, "pop": 2,
@@ -151,6 +171,9 @@ class C01(vlib.Driver):
         shared_cfg = evo.net_config_for(case["netcfg"], case["family"])
         hp = evo.hp_config_for(case["algo"])
         pop = [evo.build_agent(dict(spec, index=i, _hp_obj=hp), shared_cfg=shared_cfg) for i in range(case["pop"])]
+        if case.get("tags"):
+            for i, a in enumerate(pop):
+                evo.apply_tags(a, i)
         if case.get("wrapper"):      # AgentWrapper.clone: observation-normalising wrapper around each member
             from agilerl.wrappers.agent import RSNorm
             pop = [RSNorm(a) for a in pop]
@@ -160,6 +183,21 @@ class C01(vlib.Driver):
         for op in case["ops"]:
             rec = {"op": op[0]}
             k = op[0]
+            try:
+                pop = self._apply(op, rec, pop, spec)
+            except Exception as e:      # an operation of the evolutionary loop that raises ends the history: the states
+                import traceback        # reached so far are still judged, and the failure itself is reported by the oracle
+                rec["error"] = f"{type(e).__name__}: {str(e)[:300]}"
+                rec["trace"] = traceback.format_exc()[-1200:]
+                recs.append(rec)
+                break
+            recs.append(rec)
+            states.append(self._snap(pop))
+        return {"reg": reg, "states": states, "recs": recs}
+
+    def _apply(self, op, rec, pop, spec):
+        k = op[0]
+        if True:
             if k == "learn":
                 i = op[1]
                 pre_equal = None
@@ -191,9 +229,7 @@ class C01(vlib.Driver):
                 gc.collect()
             else:
                 raise ValueError(k)
-            recs.append(rec)
-            states.append(self._snap(pop))
-        return {"reg": reg, "states": states, "recs": recs}
+        return pop
 
     @staticmethod
     def _snap(pop):
@@ -298,9 +334,13 @@ class C01(vlib.Driver):
 
         shared_ptrs(states[0], "initial population")
         for t, (op, rec) in enumerate(zip(case["ops"], recs)):
-            before, after = states[t], states[t + 1]
             k = op[0]
             what = f"op {t} {op[:3]}"
+            if rec.get("error"):
+                # cloning / training / mutating / selecting a member that earlier operations left in working order raises
+                out.append(Violation("raises", sig("raises", k), f"{what} raised {rec['error']}\n{rec.get('trace', '')[-600:]}"))
+                break
+            before, after = states[t], states[t + 1]
             if k in ("learn", "score", "mutate", "act"):
                 for j in range(len(before)):
                     if j != op[1] and not unchanged(before[j], after[j], j, what):
@@ -342,6 +382,8 @@ class C01(vlib.Driver):
                 if [s[3] for s in pre_p["slots"]] == [s[3] for s in pre_c["slots"]]:
                     ap, ac = after[p], after[c]
                     diff = [(x[0], x[1]) for x, y in zip(ap["slots"], ac["slots"]) if x[3] != y[3]]
+                    sp_, sc_ = ap["struct"].get("scalars", {}), ac["struct"].get("scalars", {})
+                    diff += [("attr." + k, "scalar") for k in sorted(set(sp_) | set(sc_)) if sp_.get(k) != sc_.get(k)]
                     lp, lc = recs[t - 1].get("loss"), rec.get("loss")
                     if diff or lp != lc:
                         out.append(Violation("behaviour", sig("update", diff[0][1] if diff else "loss"),
@@ -432,7 +474,7 @@ class C01(vlib.Driver):
         return out
 
     def key(self, case):
-        return json.dumps([case["algo"], case["family"], case["share"], case["netcfg"], bool(case.get("wrapper")), [o[0] if o[0] != "mutate" else o[0] + ":" + o[2] for o in case["ops"]]])
+        return json.dumps([case["algo"], case["family"], case["share"], case["netcfg"], bool(case.get("wrapper")), bool(case.get("tags")), [o[0] if o[0] != "mutate" else o[0] + ":" + o[2] for o in case["ops"]]])
 
     def nontrivial(self, case, obs):
         ops = case["ops"]
